@@ -262,8 +262,9 @@ func setPerturb(mode int, seed uint64) string {
 // every length 0..4096 on a 128-segment pool
 func TestSmallPoolEveryLengthA(t *testing.T) { smallPoolEveryLength(t, 0) }
 func TestSmallPoolEveryLengthB(t *testing.T) { smallPoolEveryLength(t, 1) }
+func TestSmallPoolEveryLengthC(t *testing.T) { smallPoolEveryLength(t, 2) }
 
-// shard 0 takes the even blocks of 64 lengths, shard 1 the odd ones (parallel child processes)
+// the blocks of 64 lengths are dealt to three shards (parallel child processes)
 func smallPoolEveryLength(t *testing.T, shard int) {
 	run := obs.Start(t, "C03")
 	defer run.Done()
@@ -275,7 +276,7 @@ func smallPoolEveryLength(t *testing.T, shard int) {
 	capB := p.capBytes()
 	headersPerSplit := run.N(1, 4)
 	var evals, cross int64
-	for b := shard; b <= capB/64; b += 2 {
+	for b := shard; b <= capB/64; b += 3 {
 		lo, hi := b*64, b*64+63
 		if hi > capB {
 			hi = capB
@@ -285,7 +286,7 @@ func smallPoolEveryLength(t *testing.T, shard int) {
 			continue
 		}
 		rng := c.Rand()
-		mode := setPerturb(b/2, uint64(run.Seed())<<20^uint64(b))
+		mode := setPerturb(b/3, uint64(run.Seed())<<20^uint64(b))
 		var held *bmt.Hasher
 		for n := lo; n <= hi; n++ {
 			data, fill := fillData(rng, n, rng.Intn(8))
@@ -335,7 +336,7 @@ func smallPoolEveryLength(t *testing.T, shard int) {
 	run.Sample(map[string]interface{}{"kind": "every length", "pool": "128 segments", "lengths": "0..4096", "headers_per_split": headersPerSplit, "splits": 3})
 }
 
-func prodLengths(rng *rand.Rand, capB int, nRandom int, denseTail int) []int {
+func prodLengths(rng *rand.Rand, capB int, nRandom int, denseTail int, thinTail bool) []int {
 	set := map[int]bool{}
 	for _, n := range []int{0, 1, 2, 31, 32, 33, 63, 64, 65, 95, 96, 97, 127, 128, 129} {
 		set[n] = true
@@ -348,6 +349,10 @@ func prodLengths(rng *rand.Rand, capB int, nRandom int, denseTail int) []int {
 		}
 	}
 	for n := capB - denseTail; n <= capB; n++ {
+		// quick tier: the tail below capacity is thinned to the segment/section edges and every 8th length
+		if d := capB - n; thinTail && d > 2 && d%8 != 0 && (d < 31 || d > 33) && d != 63 {
+			continue
+		}
 		set[n] = true
 	}
 	for i := 0; i < nRandom; i++ {
@@ -367,42 +372,35 @@ func prodLengths(rng *rand.Rand, capB int, nRandom int, denseTail int) []int {
 }
 
 // boundary-dense and random lengths on the production pool (pkg/bmtpool)
-func TestProdPoolBoundariesA(t *testing.T) { prodPoolBoundaries(t, 0) }
-func TestProdPoolBoundariesB(t *testing.T) { prodPoolBoundaries(t, 1) }
-
-// the sorted length list is dealt alternately to the two shards (parallel child processes)
-func prodPoolBoundaries(t *testing.T, shard int) {
+func TestProdPoolBoundaries(t *testing.T) {
 	run := obs.Start(t, "C03")
 	defer run.Done()
-	run.Rule("production pool bmtpool (8192 segments, 256 KiB): lengths 0,1,31..33,63..65,95..97,127..129, 2^k*32-1/+0/+1 (k=1..13), cap-64..cap, plus random lengths; 3 write splits per length (quick: 1 split for most lengths of the dense tail below capacity) with rotating header kinds; hashers from bmtpool.Get/Put, every third reused after Reset; distinct = (length, split kind)")
+	run.Rule("production pool bmtpool (8192 segments, 256 KiB): lengths 0,1,31..33,63..65,95..97,127..129, 2^k*32-1/+0/+1 (k=1..13), cap-64..cap (quick: thinned to the segment/section edges and every 8th), plus random lengths; 3 write splits per length (quick: 1 split for most lengths above 8 KiB) with rotating header kinds; hashers from bmtpool.Get/Put, every third reused after Reset; distinct = (length, split kind)")
 	installHooks()
 	defer func() { cur = nil }()
 	p := prodPool()
 	capB := p.capBytes()
 	lrng := run.RandFor("prod-lengths")
-	lengths := prodLengths(lrng, capB, run.N(20, 600), run.N(64, 256))
+	lengths := prodLengths(lrng, capB, run.N(8, 100), run.N(64, 128), !run.Thorough())
 	var evals, cross int64
 	for idx, n := range lengths {
-		if idx%2 != shard {
-			continue
-		}
 		c := run.Begin(fmt.Sprintf("len/%d", n), map[string]interface{}{"pool": p.name, "len": n})
 		if c == nil {
 			continue
 		}
 		rng := c.Rand()
-		mode := setPerturb(idx/2, uint64(run.Seed())<<24^uint64(n))
+		mode := setPerturb(idx, uint64(run.Seed())<<24^uint64(n))
 		var held *bmt.Hasher
-		kinds := []string{"one", "random", []string{"sectionish", "tiny"}[idx/2%2]}
-		if d := capB - n; !run.Thorough() && n > capB/2+1 && d > 1 && d != 64 && d != 63 && (d < 31 || d > 33) {
-			kinds = kinds[idx/2%3 : idx/2%3+1]
+		kinds := []string{"one", "random", []string{"sectionish", "tiny"}[idx%2]}
+		if d := capB - n; !run.Thorough() && n > 8192+1 && d > 1 && d != 64 && d != 63 && (d < 31 || d > 33) && n&(n-1) != 0 {
+			kinds = kinds[idx%3 : idx%3+1]
 		}
 		data, fill := fillData(rng, n, 2+rng.Intn(6))
 		root := spec.BMTRoot(data, p.segments)
 		for si, sk := range kinds {
 			j := mkJobFrom(rng, data, fill, idx+si, sk)
 			want := spec.Keccak256(j.span, root)
-			if idx/2%12 == 0 && si == 0 {
+			if idx%12 == 0 && si == 0 {
 				if plain := spec.BMT(j.span, j.data); !bytes.Equal(plain, want) {
 					t.Fatalf("oracle self-check failed: sparse evaluation != BMT for len %d", n)
 				}
@@ -417,7 +415,7 @@ func prodPoolBoundaries(t *testing.T, shard int) {
 			}
 			got, problem := runCycle(h, j)
 			judge(c, clause, p, j, got, problem, want, map[string]interface{}{"perturbation": mode})
-			if si == 0 && idx/2%3 == 0 {
+			if si == 0 && idx%3 == 0 {
 				held = h
 			} else {
 				p.put(h)
@@ -457,8 +455,8 @@ func reuse(t *testing.T, which int) {
 		nseq := run.N(140, 2100)
 		cyc := 24
 		if p.segments > 128 {
-			nseq = run.N(7, 140)
-			cyc = run.N(8, 12)
+			nseq = run.N(7, 40)
+			cyc = run.N(6, 12)
 		}
 		for s := 0; s < nseq; s++ {
 			pat := patterns[s%len(patterns)]
@@ -658,12 +656,12 @@ func concurrentPoolUsers(t *testing.T, only string) {
 		for _, kind := range []string{only} {
 			for mode := 0; mode < 2; mode++ {
 				var p poolKind
-				workers, iters, corpusN := 48, run.N(20, 400), 300
+				workers, iters, corpusN := 48, run.N(20, 200), 300
 				if kind == "seg128" {
 					p = smallPool(4)
 				} else {
 					p = prodPool()
-					workers, iters, corpusN = 40, run.N(3, 50), 128
+					workers, iters, corpusN = 40, run.N(2, 20), run.N(64, 128)
 				}
 				capB := p.capBytes()
 				c := run.Begin(fmt.Sprintf("phase/%s/gomaxprocs=%d/mode=%d", kind, gmp, mode),
@@ -706,13 +704,13 @@ func concurrentPoolUsers(t *testing.T, only string) {
 				var bigToken sync.Mutex // guards "one big input in flight" (harness limit, see rule)
 				var wg sync.WaitGroup
 				type bad struct {
-					j        *hashJob
-					got      []byte
-					problem  string
-					want     []byte
-					worker   int
-					iter     int
-					second   bool
+					j       *hashJob
+					got     []byte
+					problem string
+					want    []byte
+					worker  int
+					iter    int
+					second  bool
 				}
 				bads := make([][]bad, workers)
 				counts := make([]int64, workers)
